@@ -73,11 +73,11 @@ func c35Config(peephole bool) *compiler.Config {
 
 // c35Compiled is the canonical, address-free rendering of one compilation.
 type c35Compiled struct {
-	Dump      string               // own structural dump of the instruction program
-	Printed   string               // cadence's program printer output
-	ByteDump  string               // dump of the bytecode program (function code as hex)
+	Dump      string                 // own structural dump of the instruction program
+	Printed   string                 // cadence's program printer output
+	ByteDump  string                 // dump of the bytecode program (function code as hex)
 	Functions [][]opcode.Instruction // instruction program code per function (incl. variable getters)
-	ByteCode  [][]byte             // bytecode program code per function (same order)
+	ByteCode  [][]byte               // bytecode program code per function (same order)
 	NFuncs    int
 }
 
@@ -101,7 +101,17 @@ func c35CompileChecker(checker *sema.Checker, peephole bool) (out *c35Compiled, 
 		}
 		return string(t.ID())
 	})
-	out.Printed = bbq.NewInstructionsProgramPrinter(true, false, false).PrintProgram(ip)
+	// printed form with unresolved operands (the resolving printer is a debugging aid and
+	// crashes on closures inside global-variable getters; it is used when it works)
+	out.Printed = bbq.NewInstructionsProgramPrinter(false, false, false).PrintProgram(ip)
+	func() {
+		defer func() {
+			if r := recover(); r != nil {
+				out.Printed += "\n<resolving printer panicked>"
+			}
+		}()
+		out.Printed += "\n" + bbq.NewInstructionsProgramPrinter(true, false, false).PrintProgram(ip)
+	}()
 	for _, v := range ip.Variables {
 		if v.Getter != nil {
 			out.Functions = append(out.Functions, v.Getter.Code)
